@@ -15,6 +15,7 @@ import (
 
 	"pgregory.net/rapid"
 
+	"verifharness/gen"
 	"verifharness/iox"
 	"verifharness/stats"
 )
@@ -60,6 +61,22 @@ func drawC05(t *rapid.T) C05Case {
 		c.Hdr = &GzHdr{Name: rapid.StringMatching(`[a-z]{0,6}`).Draw(t, "name"), Comment: rapid.StringMatching(`[a-z]{0,6}`).Draw(t, "comment")}
 	}
 	c.Suffix = drawSuffix(t)
+	if rapid.IntRange(0, 4).Draw(t, "past64k") == 0 {
+		// decoded size just past the 64 KiB output window (or a later 32 KiB slide), tiny suffix:
+		// the decoder stops on a full window with look-ahead bytes in its bit buffer
+		n := 65536 + 32768*rapid.IntRange(0, 2).Draw(t, "k") + rapid.IntRange(0, 40).Draw(t, "delta")
+		data := gen.Recipe{Segs: []gen.Seg{gen.DrawSeg(t, n)}}
+		set := WSetting{Ctor: "new", Level: rapid.SampledFrom([]int{-2, 1, 2, 6, 0}).Draw(t, "plevel")}
+		kind := "std"
+		if set.Level != 6 && set.Level != 0 && rapid.Bool().Draw(t, "pfast") {
+			kind = "fast"
+		}
+		c.Stream = StreamSpec{Kind: kind, Data: &data, Set: &set, Ops: []gen.Op{{K: "W", N: n}}}
+		c.Suffix = c.Suffix[:0]
+		for i := 0; i < rapid.IntRange(1, 2).Draw(t, "tiny"); i++ {
+			c.Suffix = append(c.Suffix, byte(0xA0+i))
+		}
+	}
 	c.SrcKind = rapid.SampledFrom([]string{"bufio", "bufio", "bufio", "bufio", "bytes.Reader", "bytes.Buffer", "strings.Reader", "custom"}).Draw(t, "srckind")
 	c.BufSize = rapid.SampledFrom([]int{16, 17, 31, 64, 100, 327, 328, 329, 4095, 4096, 4097, 65536}).Draw(t, "bufsize")
 	c.Ctor = rapid.SampledFrom([]string{"new", "reset"}).Draw(t, "ctor")
